@@ -9,22 +9,22 @@ package sign
 //
 //@ func PGPArmoredDetachSignWithKeyID(message io.Reader, keyFile, passphrase string, hexKeyID *string) (sig []byte, err error)
 //@   ensures [C10] signs-the-message: implies(err == nil, globStr("signedBytes") == old(readerContent(message)))
-//@   ensures [C06 C10] loud: implies(err == nil, flag("failed") == old(flag("failed")))
-//@   ensures [C07] no-clock-no-env: flag("clockRead") == old(flag("clockRead")) && flag("envRead") == old(flag("envRead"))
+//@   ensures [C06 C10] loud: implies(err == nil, ghostFlag("failed") == old(ghostFlag("failed")))
+//@   ensures [C07] no-clock-no-env: ghostFlag("clockRead") == old(ghostFlag("clockRead")) && ghostFlag("envRead") == old(ghostFlag("envRead"))
 //@   modifies [C11 C12] flag("failed"), flag("signed"), glob("signedBytes")
 //
 //@ func PGPClearSignWithKeyID(message io.Reader, keyFile, passphrase string, hexKeyID *string) (sig []byte, err error)
 //@   ensures [C10] signs-the-message: implies(err == nil, globStr("signedBytes") == old(readerContent(message)))
-//@   ensures [C06 C10] loud: implies(err == nil, flag("failed") == old(flag("failed")))
-//@   ensures [C07] no-clock-no-env: flag("clockRead") == old(flag("clockRead")) && flag("envRead") == old(flag("envRead"))
+//@   ensures [C06 C10] loud: implies(err == nil, ghostFlag("failed") == old(ghostFlag("failed")))
+//@   ensures [C07] no-clock-no-env: ghostFlag("clockRead") == old(ghostFlag("clockRead")) && ghostFlag("envRead") == old(ghostFlag("envRead"))
 //@   modifies [C11 C12] flag("failed"), flag("signed"), glob("signedBytes")
 //
 //@ func RSASignSHA1Digest(sha1Digest []byte, keyFile, passphrase string) (sig []byte, err error)
-//@   ensures [C06 C10] loud: implies(err == nil, flag("failed") == old(flag("failed")))
-//@   ensures [C07] no-clock-no-env: flag("clockRead") == old(flag("clockRead")) && flag("envRead") == old(flag("envRead"))
+//@   ensures [C06 C10] loud: implies(err == nil, ghostFlag("failed") == old(ghostFlag("failed")))
+//@   ensures [C07] no-clock-no-env: ghostFlag("clockRead") == old(ghostFlag("clockRead")) && ghostFlag("envRead") == old(ghostFlag("envRead"))
 //@   modifies [C11 C12] flag("failed"), flag("signed"), glob("signedBytes")
 //
 //@ func PGPSignerWithKeyID$1(data []byte) (sig []byte, err error)
-//@   ensures [C06 C10] loud: implies(err == nil, flag("failed") == old(flag("failed")))
-//@   ensures [C07] no-clock-no-env: flag("clockRead") == old(flag("clockRead")) && flag("envRead") == old(flag("envRead"))
+//@   ensures [C06 C10] loud: implies(err == nil, ghostFlag("failed") == old(ghostFlag("failed")))
+//@   ensures [C07] no-clock-no-env: ghostFlag("clockRead") == old(ghostFlag("clockRead")) && ghostFlag("envRead") == old(ghostFlag("envRead"))
 //@   modifies [C11 C12] flag("failed"), flag("signed"), glob("signedBytes")
